@@ -527,7 +527,7 @@ func (icfg *internalConfig) processACRH(
 func (m *Middleware) SetDebug(b bool) {
 	m.mu.Lock()
 	{
-		m.debug = b
+		m.debug = b && m.icfg != nil
 	}
 	m.mu.Unlock()
 }
